@@ -30,6 +30,9 @@ func (s *Server) Listen(req *signaling.ListenRequest, strm signaling.SRPCSignali
 		tkr.listenNonce++
 		tkr.broadcast()
 	}
+	// mark the tracker as in use by a listener so that it is not released
+	// (and replaced by a new tracker we are not watching) while we listen.
+	tkr.listening = true
 	listenNonce := tkr.listenNonce
 	s.mtx.Unlock()
 
